@@ -242,13 +242,17 @@ def selftest(ctx: Ctx) -> bool:
     tlc.write_json(obs, [good, bad])
     j = tlc.require_ok(tlc.run_tlc("AuthCacheJudge", "AuthCacheJudge.cfg", env={"OBS_FILE": obs}, workers=1), "selftest")
     ok1 = ["ACCEPT", 1] in j.prints and ["DISAGREE", 2, "FetchOnce"] in j.prints
-    hdr = {"carriers": [True] * 8, "user": ["a"] * 8, "applies": [[True] * 8] * 3}
+    hdr = {"carriers": [True] * 8, "user": ["a"] * 8, "applies": [[True] * 8] * 3, "issued": [1]}
     tlc.write_json(obs, [{"hdr": hdr, "lines": [{"op": 1, "ph": 4, "vals": ["a"] * 8, "probe": False, "parent": 0},
                                                 {"op": 2, "ph": 4, "vals": ["a"] * 6 + ["x", "a"], "probe": False, "parent": 0},
                                                 {"op": 2, "ph": 4, "vals": ["a"] * 7 + [""], "probe": True, "parent": 1}]}])
     j = tlc.require_ok(tlc.run_tlc("RequestsTrace", "RequestsTrace.cfg", env={"OBS_FILE": obs}, workers=1), "selftest")
-    ok2 = ["REJECT", 1, 2, 7, 4, 2] in j.prints and ["REJECT", 1, 1, 1, 4, 1] not in j.prints
-    return ok1 and ok2
+    ok2 = ["REJECT", 1, 2, 7, 4, 2] in j.prints and ["REJECT", 1, 1, 1, 4, 1] not in j.prints and ["REJECT", 1, 4, 0, 1, 0] not in j.prints
+    # a provider asked twice for the same cache key within the interval is rejected
+    tlc.write_json(obs, [{"hdr": dict(hdr, issued=[1, 2]), "lines": [{"op": 1, "ph": 4, "vals": ["a"] * 8, "probe": False, "parent": 0}]}])
+    j = tlc.require_ok(tlc.run_tlc("RequestsTrace", "RequestsTrace.cfg", env={"OBS_FILE": obs}, workers=1), "selftest")
+    ok3 = ["REJECT", 1, 2, 0, 1, 0] in j.prints
+    return ok1 and ok2 and ok3
 
 
 def main(argv=None) -> int:
